@@ -16,7 +16,7 @@ from vlib import cli, common
 from vlib.common import pmap, rng, Inconclusive
 
 LEVEL = "exploration"
-FLOOR = {"quick": 600, "thorough": 2500}
+FLOOR = {"quick": 600, "thorough": 2000}
 
 # --- type-level constructs: a type expression (YAML flow text) that violates one rule -----------------
 # (rule id, named in property statement?, type text, extra top-level definitions it needs)
